@@ -1,14 +1,14 @@
 (* C10  Repeated invocations keep their cadence and respect their total.
    Statements only; proofs in Proofs/StepSpecs_ctx.v (step facts about the counter),
    Proofs/C10Proofs.v (reachable-state corollaries, cadence lemmas L1..L4, EndBlock)
-   and Proofs/TraceBatch.v (the trace statement C10_cadence).
+   and Proofs/TraceCadence.v (the trace statements C10_cadence, C10_cadence_consecutive).
    `Inv cfg s` holds in every reachable state and in every state inside EndBlock
    (Proofs/InvAll.v: Reach_Inv, fold_expire_phase, fold_new_phase).
    Heights are below HEIGHT_BOUND = 2^62 and frequencies below it (wf_op; known finding K2:
    without the bound `int64(freq)` wraps and the next batch is queued in the past). *)
 From Coq Require Import List ZArith Bool.
 From SVC Require Import Base.AMap Base.Res Model.Types Model.Handlers Model.EndBlock Model.Step
-  Proofs.Inv Proofs.CtxOps Proofs.StepSpecs_ctx Proofs.C10Proofs.
+  Proofs.Inv Proofs.CtxOps Proofs.ReachRun Proofs.StepSpecs_ctx Proofs.C10Proofs Proofs.TraceCadence.
 Import ListNotations.
 Open Scope Z_scope.
 
@@ -220,3 +220,41 @@ Theorem C10_cadence_step : forall cfg s c rc rc' s2 rc2,
   /\ In (height s + c_freq rc2, c) (newq (expire_one cfg s2 c)).
 Proof. exact C10Proofs.C10_cadence_step. Qed.
 Print Assumptions C10_cadence_step.
+
+(* ---- cadence, trace ---- *)
+(* quiet_at c t f s      : c exists in s, is Running, has timeout t and frequency f;
+   quiet_run cfg c t f s ops : quiet_at holds after every operation of the run of ops from s;
+   wf_run                : the domain hypotheses (wf_op) hold along the run.
+   Pauses, restarts and updates emit no event, so "nothing happened to the context in between"
+   is a hypothesis on the states at operation boundaries.  (It is needed: example
+   TraceCadence.ExC.C10_cadence_needs_quiet.) *)
+
+(* anchor: a reachable state with the batch `counter` of c in flight, expiry entry at E.
+   If batch counter + 1 is ever started along a quiet run, it is started at E - t + f. *)
+Theorem C10_cadence : forall cfg s c rc E ops H' k,
+  wf_cfg cfg -> Reach cfg s ->
+  get c (ctxs s) = Some rc -> get c (expq_h s) = Some E ->
+  wf_run cfg s ops ->
+  quiet_at c (c_timeout rc) (c_freq rc) s ->
+  quiet_run cfg c (c_timeout rc) (c_freq rc) s ops ->
+  In (EvBatchStart c (c_counter rc + 1) H' k) (log (run cfg s ops)) ->
+  H' = E - c_timeout rc + c_freq rc.
+Proof. exact TraceCadence.C10_cadence. Qed.
+Print Assumptions C10_cadence.
+
+(* consecutive starts: the EndBlock of height H starts a batch of c (index counter + 1,
+   timeout t, frequency f); along a quiet run from the state after that EndBlock, the next
+   batch (index counter + 2) starts at exactly H + f *)
+Theorem C10_cadence_consecutive : forall cfg s0 c rc0 dt ops H' k,
+  wf_cfg cfg -> Reach cfg s0 -> height s0 < HEIGHT_BOUND -> 0 <= dt ->
+  In (height s0, c) (newq s0) -> get c (ctxs s0) = Some rc0 ->
+  c_state rc0 = Running -> d5 rc0 = false ->
+  let s1 := end_block cfg s0 dt in
+  has c (expq_h s1) = true ->
+  wf_run cfg s1 ops ->
+  quiet_at c (c_timeout rc0) (c_freq rc0) s1 ->
+  quiet_run cfg c (c_timeout rc0) (c_freq rc0) s1 ops ->
+  In (EvBatchStart c (c_counter rc0 + 2) H' k) (log (run cfg s1 ops)) ->
+  H' = height s0 + c_freq rc0.
+Proof. exact TraceCadence.C10_cadence_consecutive. Qed.
+Print Assumptions C10_cadence_consecutive.
